@@ -5,7 +5,10 @@
 // "handle -> long-data buffers".
 //
 // Events: prepare (1-parameter / 2-parameter template), send_long_data(handle, param),
-// execute(handle, value set) with a well-formed packet, execute with a malformed packet
+// execute(handle, value set) with a well-formed packet carrying parameter types (value set 0:
+// strings, value set 1: LONGLONG), re-execute WITHOUT types (new-params-bound = 0: the values
+// are decoded with the types remembered from the handle's previous execute, which is what
+// libmysqlclient / Connector/J send for a statement that was not re-bound), execute with a malformed packet
 // (truncated bitmap / truncated types / truncated value / unknown type / bad date length),
 // reset, close — each also on a closed handle and on a never-allocated id.
 //
@@ -24,6 +27,7 @@ import (
 	"encoding/json"
 	"fmt"
 	"sort"
+	"strconv"
 	"strings"
 
 	"github.com/XiaoMi/Gaea/mysql"
@@ -37,7 +41,7 @@ import (
 )
 
 type event struct {
-	K string `json:"k"`           // P prepare, L long data, X execute, M malformed execute, R reset, C close
+	K string `json:"k"`           // P prepare, L long data, X execute (types sent), Y execute without types, M malformed execute, R reset, C close
 	H int    `json:"h"`           // handle index in order of preparation; -1 = an id never allocated
 	P int    `json:"p,omitempty"` // L: parameter index; P: template index
 	V int    `json:"v,omitempty"` // X: value set
@@ -52,6 +56,8 @@ func (e event) String() string {
 		return fmt.Sprintf("long(h%d,p%d)", e.H, e.P)
 	case "X":
 		return fmt.Sprintf("execute(h%d,v%d)", e.H, e.V)
+	case "Y":
+		return fmt.Sprintf("execute_without_types(h%d,v%d)", e.H, e.V)
 	case "M":
 		return fmt.Sprintf("execute_malformed(h%d,%s)", e.H, e.M)
 	case "R":
@@ -79,6 +85,7 @@ type mHandle struct {
 	tpl   int
 	open  bool
 	long  [][]byte // nil = no long data
+	types []byte   // type code per parameter as sent by the last well-formed execute with types; nil = none / undefined
 	dirty bool     // a malformed execute hit this handle since its last reset/successful execute (feature only)
 }
 
@@ -104,27 +111,67 @@ func idBytes(id uint32) []byte {
 	return []byte{byte(id), byte(id >> 8), byte(id >> 16), byte(id >> 24)}
 }
 
-func value(h, v, p int) []byte { return []byte(fmt.Sprintf("h%dv%dp%d", h, v, p)) }
-func chunk(h, p int) []byte    { return []byte(fmt.Sprintf("h%dL%d.", h, p)) }
+// val is one parameter value: a byte string or a (positive) integer.
+type val struct {
+	s     []byte
+	isInt bool
+	n     uint64
+}
+
+func (v val) String() string {
+	if v.isInt {
+		return fmt.Sprint(v.n)
+	}
+	return fmt.Sprintf("'%s'", v.s)
+}
+
+// value returns the value of parameter p in an execute of handle h: tag "v" for executes
+// with types, "y" for executes without; as a string or, for integer-typed parameters, as a
+// number whose four low bytes are all different and non-zero.
+func value(tag byte, h, v, p int, asInt bool) val {
+	if asInt {
+		base := uint64(0x01020300)
+		if tag == 'y' {
+			base = 0x05060700
+		}
+		return val{isInt: true, n: base + uint64(h)*0x40 + uint64(p)*0x10 + uint64(v) + 1}
+	}
+	return val{s: []byte(fmt.Sprintf("h%d%c%dp%d", h, tag, v, p))}
+}
+
+func isStringType(t byte) bool { return t == mysql.TypeVarString || t == mysql.TypeBlob }
+
+func encode(t byte, v val) []byte {
+	if t == mysql.TypeLonglong {
+		b := make([]byte, 8)
+		for i := range b {
+			b[i] = byte(v.n >> (8 * uint(i)))
+		}
+		return b
+	}
+	return lenenc(v.s)
+}
+func chunk(h, p int) []byte { return []byte(fmt.Sprintf("h%dL%d.", h, p)) }
 
 func lenenc(b []byte) []byte { return append([]byte{byte(len(b))}, b...) }
 
-// execPacket builds a COM_STMT_EXECUTE payload for n parameters. hasLong[p] parameters carry
-// no value in the packet (type BLOB); the others are VAR_STRING with vals[p].
-func execPacket(id uint32, n int, hasLong []bool, vals [][]byte) []byte {
+// execPacket builds a COM_STMT_EXECUTE payload for n parameters. With sendTypes the
+// parameter types are part of the packet (new-params-bound = 1), otherwise the flag is 0
+// and only values follow. Parameters with pending long data (hasLong) carry no value.
+func execPacket(id uint32, n int, hasLong []bool, types []byte, vals []val, sendTypes bool) []byte {
 	pkt := append(idBytes(id), 0, 1, 0, 0, 0)
 	pkt = append(pkt, make([]byte, (n+7)/8)...)
-	pkt = append(pkt, 1)
-	for p := 0; p < n; p++ {
-		if hasLong[p] {
-			pkt = append(pkt, mysql.TypeBlob, 0)
-		} else {
-			pkt = append(pkt, mysql.TypeVarString, 0)
+	if sendTypes {
+		pkt = append(pkt, 1)
+		for p := 0; p < n; p++ {
+			pkt = append(pkt, types[p], 0)
 		}
+	} else {
+		pkt = append(pkt, 0)
 	}
 	for p := 0; p < n; p++ {
 		if !hasLong[p] {
-			pkt = append(pkt, lenenc(vals[p])...)
+			pkt = append(pkt, encode(types[p], vals[p])...)
 		}
 	}
 	return pkt
@@ -207,7 +254,7 @@ func renderArgs(args []interface{}) string {
 }
 
 // checkSQL compares the statement the backend received with the template + expected values.
-func checkSQL(got string, tpl int, vals [][]byte) string {
+func checkSQL(got string, tpl int, vals []val) string {
 	tt := mylex.Lex(templates[tpl].sql, mylex.Mode{}, false)
 	gt := mylex.Lex(got, mylex.Mode{}, false)
 	gi, pi := 0, 0
@@ -217,8 +264,16 @@ func checkSQL(got string, tpl int, vals [][]byte) string {
 		}
 		if t.Kind == mylex.Param {
 			g := gt[gi]
-			if g.Kind != mylex.String || g.Val != string(vals[pi]) {
-				return fmt.Sprintf("parameter %d is %s, expected '%s'", pi, g.Text, vals[pi])
+			w := vals[pi]
+			ok := false
+			if w.isInt {
+				n, err := strconv.ParseUint(g.Text, 10, 64)
+				ok = g.Kind == mylex.Number && err == nil && n == w.n
+			} else {
+				ok = g.Kind == mylex.String && g.Val == string(w.s)
+			}
+			if !ok {
+				return fmt.Sprintf("parameter %d is %s, expected %s", pi, g.Text, w)
 			}
 			gi++
 			pi++
@@ -266,7 +321,7 @@ func replay(hist []event) xstate.Result {
 		dirty := mh != nil && mh.dirty
 		sent := true
 		expectBackend := 0
-		var wantVals [][]byte
+		var wantVals []val
 		switch e.K {
 		case "P":
 			send(mysql.ComStmtPrepare, []byte(templates[e.P].sql))
@@ -295,33 +350,56 @@ func replay(hist []event) xstate.Result {
 			} else {
 				last = "L:ignored"
 			}
-		case "X", "M":
+		case "X", "Y", "M":
 			tpl := 0
 			if e.H >= 0 && e.H < len(m.h) {
 				tpl = m.h[e.H].tpl
 			}
 			n := templates[tpl].n
+			if e.K == "Y" && (mh == nil || mh.types == nil) {
+				ev.Fatalf("harness: execute-without-types enabled on a handle without remembered types: %v", hist[:i+1])
+			}
 			hasLong := make([]bool, n)
-			vals := make([][]byte, n)
+			types := make([]byte, n)
+			vals := make([]val, n)
 			for p := 0; p < n; p++ {
-				if mh != nil && mh.long[p] != nil {
-					hasLong[p] = true
-					vals[p] = mh.long[p]
-				} else {
-					vals[p] = value(e.H, e.V, p)
+				pending := mh != nil && mh.long[p] != nil
+				hasLong[p] = pending
+				switch {
+				case e.K == "Y":
+					types[p] = mh.types[p] // what the server remembers; not sent
+				case pending:
+					types[p] = mysql.TypeBlob
+				case e.V == 1:
+					types[p] = mysql.TypeLonglong
+				default:
+					types[p] = mysql.TypeVarString
+				}
+				switch {
+				case pending:
+					vals[p] = val{s: mh.long[p]}
+				case e.K == "Y":
+					vals[p] = value('y', e.H, e.V, p, !isStringType(types[p]))
+				default:
+					vals[p] = value('v', e.H, e.V, p, !isStringType(types[p]))
 				}
 			}
 			var pkt []byte
-			if e.K == "X" {
-				pkt = execPacket(m.idOf(e.H), n, hasLong, vals)
-			} else {
+			switch e.K {
+			case "X":
+				pkt = execPacket(m.idOf(e.H), n, hasLong, types, vals, true)
+			case "Y":
+				pkt = execPacket(m.idOf(e.H), n, hasLong, types, vals, false)
+			default:
 				var ok bool
 				pkt, ok = malformedPacket(m.idOf(e.H), e.H, n, hasLong, e.M)
 				if !ok {
 					sent = false
 					last = "M:n/a"
-					break
 				}
+			}
+			if !sent {
+				break
 			}
 			send(mysql.ComStmtExecute, pkt)
 			failed := pan != nil || resp.RespType == server.RespError
@@ -339,22 +417,30 @@ func replay(hist []event) xstate.Result {
 				for p := range mh.long {
 					mh.long[p] = nil
 				}
+				if e.M != "trunc_bitmap" && e.M != "trunc_types" {
+					// the packet carried a full type list before it failed: what the server
+					// remembers afterwards is not defined by the property
+					mh.types = nil
+				}
 				mh.dirty = true
 				last = "M:refused"
 			default:
 				if failed {
-					return viol(i, "wellformed_execute_failed", dirty, "a well-formed execute failed: %v %v", pan, sessrig.RespErr(resp))
+					return viol(i, "wellformed_execute_failed", dirty, "a well-formed %s failed: %v %v", e, pan, sessrig.RespErr(resp))
 				}
 				expectBackend = 1
 				wantVals = vals
 				for p := range mh.long {
 					mh.long[p] = nil
 				}
+				if e.K == "X" {
+					mh.types = types // remembered until the statement is re-bound or closed
+				}
 				mh.dirty = false
-				last = "X:ok"
+				last = e.K + ":ok"
 				for p := range hasLong {
 					if hasLong[p] {
-						last = "X:ok+long"
+						last = e.K + ":ok+long"
 					}
 				}
 			}
@@ -421,6 +507,7 @@ func replay(hist []event) xstate.Result {
 			for _, l := range h.long {
 				p += fmt.Sprintf(":%q", l)
 			}
+			p += fmt.Sprintf(":types=%x", h.types)
 			args, types, ok := server.VerifStmtState(s.SE, h.id)
 			p += fmt.Sprintf("|impl=%v:%s:%x", ok, renderArgs(args), types)
 		}
@@ -438,6 +525,33 @@ func replay(hist []event) xstate.Result {
 		return xstate.Result{Violation: "backend connection not returned", Features: map[string]string{"kind": "conn_leak", "stale_source": "none", "event": "-"}}
 	}
 	return xstate.Result{Key: key, Outcome: last}
+}
+
+// typesDefined reports (from the history alone) whether handle h is open and the last of its
+// executes that carried a full type list was a well-formed one: only then is "execute
+// without types" defined. Malformed packets that carry types make it undefined again.
+func typesDefined(hist []event, h int) bool {
+	np, def := 0, false
+	for _, e := range hist {
+		if e.K == "P" {
+			np++
+			continue
+		}
+		if e.H != h || np <= h {
+			continue
+		}
+		switch e.K {
+		case "X":
+			def = true
+		case "M":
+			if e.M != "trunc_bitmap" && e.M != "trunc_types" {
+				def = false
+			}
+		case "C":
+			return false
+		}
+	}
+	return def
 }
 
 func main() {
@@ -475,6 +589,9 @@ func main() {
 		}
 		for h := 0; h < np; h++ {
 			out = append(out, event{K: "X", H: h, V: 0}, event{K: "X", H: h, V: 1})
+			if typesDefined(hist, h) {
+				out = append(out, event{K: "Y", H: h, V: 0}, event{K: "Y", H: h, V: 1})
+			}
 			out = append(out, event{K: "L", H: h, P: 0}, event{K: "L", H: h, P: 1})
 			for _, mk := range malformations[:nMal] {
 				out = append(out, event{K: "M", H: h, M: mk})
@@ -521,11 +638,12 @@ func main() {
 	r.Set("frontier_per_depth", st.PerDepth)
 	r.Set("violating_histories", st.Violations)
 	r.Set("outcome_counts", outcomes)
-	r.Set("bound", fmt.Sprintf("BFS to depth %d; <=%d prepares (templates with 1 and 2 parameters); per handle: execute x 2 value sets, send_long_data x 2 parameters, %d malformed-execute variants, reset, close; the same commands on closed handles and on a never-allocated id", maxDepth, maxPrepares, nMal))
+	r.Set("bound", fmt.Sprintf("BFS to depth %d; <=%d prepares (templates with 1 and 2 parameters); per handle: execute with types x 2 value sets (strings / LONGLONG), execute without types (new-params-bound=0, enabled once types are remembered) x 2 value sets, send_long_data x 2 parameters, %d malformed-execute variants, reset, close; the same commands on closed handles and on a never-allocated id", maxDepth, maxPrepares, nMal))
 	r.Set("explanation", "states = distinct canonical states (model long-data buffers + open flags, implementation statement table with bound args and parameter types); transitions = histories replayed step by step on a fresh real SessionExecutor, each step compared with the reference model (SQL text at the fake backend, error/no error); violating histories are not extended")
 	if st.States < 10 || r.DistinctN("outcomes") < 6 {
 		ev.Fatalf("vacuous run: states=%d outcomes=%d", st.States, r.DistinctN("outcomes"))
 	}
+	r.Assume("every command is handed to ExecuteCommand in the session's one reused packet buffer, which is overwritten with 0xEE after the command and with the next command's bytes (what Session.Run does through ReadEphemeralPacket / RecycleReadPacket / bufPool); parameter types persist per handle until re-bound, also across reset (MySQL semantics)")
 	r.Assume("reference model = MySQL's documented semantics: long data accumulates per parameter until the next execution (successful or failed) or reset of that handle; values of an execute packet live for that execution only")
 	r.Assume("a panic escaping ExecuteCommand is what Session.Run recovers by closing the connection: treated as a failed command and a terminal state")
 	r.Assume("COM_STMT_SEND_LONG_DATA and COM_STMT_CLOSE have no response in the protocol: whatever the proxy answers is accepted")
